@@ -342,9 +342,13 @@ pub trait BinRead {
     }
 
     fn read_byte_vec(&mut self, len: usize) -> Result<Vec<u8>, Self::Err> {
-        let mut buf = vec![0; len];
-        self.read_exact(&mut buf)?;
-        Ok(buf)
+        // `len` usually comes from the file itself, so don't allocate it all before the data turns up
+        let mut buf = vec![];
+        match io::Read::take(self._bin_read_reader(), len as u64).read_to_end(&mut buf) {
+            Ok(num_read) if num_read == len => Ok(buf),
+            Ok(_) => Err(self._bin_read_io_error(io::Error::new(io::ErrorKind::UnexpectedEof, "failed to fill whole buffer"))),
+            Err(e) => Err(self._bin_read_io_error(e)),
+        }
     }
 
     fn read_exact(&mut self, out: &mut [u8]) -> Result<(), Self::Err> {
